@@ -27,8 +27,10 @@ def _one(args):
     from . import serial_rec
     stmts, acks, status, late = args[:4]
     lose = args[4] if len(args) > 4 else 0
+    slow = tuple(args[5]) if len(args) > 5 and args[5] else None
     return serial_rec.run_direct([bytes(s) for s in stmts], [bytes(a) for a in acks],
-                                 status={int(k): [bytes(x) for x in v] for k, v in status.items()}, late_hs=late, lose_at=lose)
+                                 status={int(k): [bytes(x) for x in v] for k, v in status.items()}, late_hs=late, lose_at=lose,
+                                 slow=slow)
 
 
 def run_all(specs, par=12):
@@ -39,12 +41,12 @@ def enc(spec):
     stmts, acks, status, late = spec[:4]
     return {"stmts": [list(s) for s in stmts], "acks": [list(a) for a in acks],
             "status": {str(k): [list(x) for x in v] for k, v in status.items()}, "late": late,
-            "lose": spec[4] if len(spec) > 4 else 0}
+            "lose": spec[4] if len(spec) > 4 else 0, "slow": list(spec[5]) if len(spec) > 5 and spec[5] else None}
 
 
 def dec(d):
     return ([bytes(s) for s in d["stmts"]], [bytes(a) for a in d["acks"]],
-            {int(k): [bytes(x) for x in v] for k, v in d["status"].items()}, d["late"], d.get("lose", 0))
+            {int(k): [bytes(x) for x in v] for k, v in d["status"].items()}, d["late"], d.get("lose", 0), d.get("slow"))
 
 
 class P(flow.Plan):
@@ -96,7 +98,9 @@ class P(flow.Plan):
             acks = [rng.choice(ERRS) if rng.random() < 0.25 else rng.choice([b"ok\n", b"ok T:20.0 /0.0\n", b"OK\n"]) for _ in range(k)]
             status = {j + 1: [rng.choice(STATUS) for _ in range(rng.randint(1, 2))] for j in range(k) if rng.random() < 0.3}
             lose = rng.randint(1, k) if i % 5 == 4 else 0          # connection loss while statement `lose` is in flight
-            specs.append((stmts, acks, status, rng.random() < 0.15 and not lose, lose))
+            # arbitrary acknowledgement latency: longer than the writer's own (connection) timeout
+            slow = (rng.randint(1, k), 0.25, 0.6) if i % 7 == 2 and not lose else None
+            specs.append((stmts, acks, status, rng.random() < 0.15 and not lose and not slow, lose, slow))
         traces = run_all(specs)
         for t in traces:
             t["meta"]["driver"] = "random"
